@@ -11,7 +11,8 @@ D::from of that same chunk; (R5) only FIFO-preserving methods are ever called on
 the queue; (R6) a chunk is queued only when the buffer is non-empty; (R7) the
 producer-finished flag is set by Drop and cleared by flush; (R8) the writer is not
 Clone (one producer, program order); (R9) the identity arm of the BodyWriter
-delegates to the chunk writer.  Does not decide: std's write_all, hyper's framing."""
+delegates to the chunk writer; (R7.wake / R7.drop) the end is announced: every publish wakes the
+parked consumer and every return path of Drop has visited the shared state.  Does not decide: std's write_all, hyper's framing."""
 from . import chunker as CH
 from . import streaming as ST
 from . import witness as W
